@@ -68,6 +68,8 @@ func two() (int, string) { return 1, "x" }
 
 func add(a int, b int) int { return a + b }
 
+func half32(x float32) float32 { return x / 2 }
+
 func join(sep string, parts ...string) string {
 	out := ""
 	for i, p := range parts {
@@ -133,6 +135,14 @@ func main() {
 		fmt.Println(q.A)
 	}
 	fmt.Println(join("-", "a", "b"), -p.A, !(p.A > 1))
+	var f32 float32 = 1.5
+	f32 = 2.25
+	g32 := float32(2.5) + f32
+	fs32 := []float32{1, 0.5}
+	ms32 := map[float32]int{0.5: 1}
+	var f64 float64 = 1e300
+	f64 = 0.125
+	fmt.Println(f32, g32, half32(0.25), fs32, ms32[0.5], f32 < 3.5, f64)
 	ptr := &p
 	ptr.A++
 	fmt.Println(*ptr)
@@ -243,6 +253,11 @@ func c12Mutants(baseID, src string, maxPerOp int) []c12Mutant {
 			if lt != nil && isBasic(lt, types.IsString) && x.Op == token.ADD && info.Types[x.X].Value == nil {
 				repl("binop-string-int", x.Y.Pos(), x.Y.End(), `gIntVar`)
 			}
+			if lt != nil && isBasicKind(lt, types.Float32) {
+				if tv, ok := info.Types[x.Y]; ok && tv.Value != nil {
+					repl("binop-float32-const-overflow", x.Y.Pos(), x.Y.End(), `1e39`)
+				}
+			}
 			if lt != nil && isBasic(lt, types.IsBoolean) && (x.Op == token.LAND || x.Op == token.LOR) {
 				repl("logical-int-operand", x.Y.Pos(), x.Y.End(), `gIntVar`)
 			}
@@ -258,6 +273,12 @@ func c12Mutants(baseID, src string, maxPerOp int) []c12Mutant {
 						repl("assign-int-to-string", x.Rhs[0].Pos(), x.Rhs[0].End(), `gIntVar`)
 					case isBasic(lt, types.IsFloat):
 						repl("assign-string-to-float", x.Rhs[0].Pos(), x.Rhs[0].End(), `"f"`)
+						if isBasicKind(lt, types.Float32) {
+							// fits a float64, overflows a float32
+							repl("assign-float32-overflow-const", x.Rhs[0].Pos(), x.Rhs[0].End(), `1.5e39`)
+						} else {
+							repl("assign-float64-overflow-const", x.Rhs[0].Pos(), x.Rhs[0].End(), `1e400`)
+						}
 					}
 					repl("assign-count-mismatch", x.Rhs[0].Pos(), x.Rhs[0].End(), `two()`)
 				}
@@ -274,6 +295,17 @@ func c12Mutants(baseID, src string, maxPerOp int) []c12Mutant {
 				}
 			}
 		case *ast.CallExpr:
+			if tv, ok := info.Types[x.Fun]; ok && len(x.Args) > 0 {
+				if tv.IsType() && isBasicKind(tv.Type, types.Float32) {
+					repl("conv-float32-const-overflow", x.Args[0].Pos(), x.Args[0].End(), `1e300`)
+				} else if sig, ok := tv.Type.Underlying().(*types.Signature); ok && !tv.IsType() {
+					for ai, a := range x.Args {
+						if ai < sig.Params().Len() && !(sig.Variadic() && ai >= sig.Params().Len()-1) && isBasicKind(sig.Params().At(ai).Type(), types.Float32) {
+							repl("arg-float32-const-overflow", a.Pos(), a.End(), `3.5e38`)
+						}
+					}
+				}
+			}
 			if id, ok := x.Fun.(*ast.Ident); ok {
 				if obj, ok := info.Uses[id].(*types.Builtin); ok {
 					switch obj.Name() {
@@ -370,10 +402,20 @@ func c12Mutants(baseID, src string, maxPerOp int) []c12Mutant {
 						}
 					}
 				case *types.Slice:
+					if isBasicKind(u.Elem(), types.Float32) && len(x.Elts) > 0 {
+						if _, keyed := x.Elts[0].(*ast.KeyValueExpr); !keyed {
+							repl("slice-lit-float32-elem-overflow", x.Elts[0].Pos(), x.Elts[0].End(), `1e39`)
+						}
+					}
 					if isBasic(u.Elem(), types.IsInteger) && len(x.Elts) > 0 {
 						repl("slice-lit-wrong-elem", x.Rbrace, x.Rbrace, `, "e"`)
 					}
 				case *types.Map:
+					if isBasicKind(u.Key(), types.Float32) && len(x.Elts) > 0 {
+						if kv, ok := x.Elts[0].(*ast.KeyValueExpr); ok {
+							repl("map-lit-float32-key-overflow", kv.Key.Pos(), kv.Key.End(), `1e39`)
+						}
+					}
 					if len(x.Elts) > 0 && isBasic(u.Elem(), types.IsInteger) {
 						repl("map-lit-wrong-value", x.Rbrace, x.Rbrace, `, "kz": "v"`)
 					}
@@ -410,6 +452,12 @@ func c12Mutants(baseID, src string, maxPerOp int) []c12Mutant {
 					if b, ok := t.Underlying().(*types.Basic); ok && (b.Kind() == types.Int8 || b.Kind() == types.Uint8) {
 						repl("var-const-out-of-range", x.Values[0].Pos(), x.Values[0].End(), `300`)
 					}
+					if isBasicKind(t, types.Float32) {
+						repl("var-float32-const-out-of-range", x.Values[0].Pos(), x.Values[0].End(), `1e39`)
+					}
+					if isBasicKind(t, types.Float64) {
+						repl("var-float64-const-out-of-range", x.Values[0].Pos(), x.Values[0].End(), `1e309`)
+					}
 					if _, ok := t.Underlying().(*types.Interface); ok && t.String() != "interface{}" && t.String() != "any" {
 						repl("iface-not-implemented", x.Values[0].Pos(), x.Values[0].End(), `NoArea{1}`)
 					}
@@ -434,6 +482,14 @@ var gRecvOnly <-chan int = make(chan int)
 
 func voidFn() {}
 `
+
+func isBasicKind(t types.Type, k types.BasicKind) bool {
+	if t == nil {
+		return false
+	}
+	b, ok := t.Underlying().(*types.Basic)
+	return ok && b.Kind() == k
+}
 
 func c12Bases(r *core.Run, n int) map[string]string {
 	bases := map[string]string{"rich": strings.Replace(c12RichBase, "func main() {", c12Helpers+"\nfunc main() {", 1)}
